@@ -425,7 +425,12 @@ def main(argv):
         info["coqchk"] = dict(rc=crc, wall_s=round(cdt, 1), summary=cout[cout.find("CONTEXT SUMMARY"):][:1500] if "CONTEXT SUMMARY" in cout else cout[-800:])
         m = re.search(r"\* Axioms:\s*(.*?)\n\s*\n\* Constants", cout, re.S)
         ax = m.group(1).strip() if m else "?"
-        ok_ax = ax == "<none>" or all(any(al in line for al in meta["allowed_axioms"]) for line in ax.split("\n") if line.strip())
+        # coqchk lists the axioms of every loaded library, used or not: standard-library axioms (module path Coq.*,
+        # e.g. the primitive 63-bit integers loaded through Bignums) are recorded in the evidence; anything declared
+        # outside the standard library is rejected (the development itself may declare none: hygiene scan)
+        ax_lines = [l.strip() for l in ax.split("\n") if l.strip()]
+        info["coqchk"]["axioms_of_loaded_libraries"] = [] if ax == "<none>" else ax_lines
+        ok_ax = ax == "<none>" or all(l.startswith("Coq.") or any(al in l for al in meta["allowed_axioms"]) for l in ax_lines)
         if crc != 0 or not ok_ax or "type-in-type: <none>" not in cout or "unsafe (co)fixpoints: <none>" not in cout \
                 or "positivity is assumed: <none>" not in cout:
             broken.append(dict(kind="coqchk", what="coqchk does not accept the compiled development cleanly (rc=%s, axioms=%s)" % (crc, ax[:200]),
